@@ -4,36 +4,136 @@ import (
 	"fmt"
 	"go/ast"
 	"go/types"
+	"sort"
 	"strings"
 
 	"verifcheck/core"
 )
 
-// calleeIn returns a predicate over call expressions of f: resolved callee name in names.
+// calleeIn returns a predicate over call expressions of f: resolved callee name in names, or a call of an
+// exact wrapper of such a call (see exactWrapper).
 func calleeIn(f *core.FuncInfo, names ...string) func(*ast.CallExpr) bool {
 	set := map[string]bool{}
 	for _, n := range names {
 		set[n] = true
 	}
-	info := f.Info()
-	return func(c *ast.CallExpr) bool {
-		if fn, ok := core.Callee(info, c).(*types.Func); ok {
-			return set[core.FuncName(fn)]
+	direct := func(fi *core.FuncInfo) func(*ast.CallExpr) bool {
+		info := fi.Info()
+		return func(c *ast.CallExpr) bool {
+			if fn, ok := core.Callee(info, c).(*types.Func); ok {
+				return set[core.FuncName(fn)]
+			}
+			return false
 		}
-		return false
+	}
+	return orWrapper(f, "callee:"+strings.Join(names, ","), direct)
+}
+
+// fieldCallIn: call of method on struct field "Type.field", or a call of an exact wrapper of such a call.
+func fieldCallIn(f *core.FuncInfo, field, method string) func(*ast.CallExpr) bool {
+	direct := func(fi *core.FuncInfo) func(*ast.CallExpr) bool {
+		info := fi.Info()
+		return func(c *ast.CallExpr) bool {
+			se, ok := c.Fun.(*ast.SelectorExpr)
+			if !ok || se.Sel.Name != method {
+				return false
+			}
+			return core.FieldPathOf(info, se.X) == field
+		}
+	}
+	return orWrapper(f, "field:"+field+"."+method, direct)
+}
+
+// exact-wrapper recognition -------------------------------------------------------------------------------
+//
+// A helper extracted from an anchored function (func (w *T) enqueue(...) error { count++; return w.q.Write(...) })
+// must not change a verdict. A declared, unexported function F of the repository is an exact wrapper of the
+// calls selected by a predicate when every path through F executes exactly one such call, F registers no defers
+// and starts no goroutines, and, if F returns an error, every return hands back that call's error. A call of F
+// then stands for the wrapped call in every rule (its error result is the wrapped call's error).
+
+var wrapperCache = map[string]bool{}
+
+func orWrapper(f *core.FuncInfo, what string, direct func(fi *core.FuncInfo) func(*ast.CallExpr) bool) func(*ast.CallExpr) bool {
+	own := direct(f)
+	info := f.Info()
+	prog := f.Prog
+	return func(c *ast.CallExpr) bool {
+		if own(c) {
+			return true
+		}
+		fn, ok := core.Callee(info, c).(*types.Func)
+		if !ok || fn.Exported() {
+			return false
+		}
+		callee := prog.FuncOf(fn)
+		if callee == nil || callee == f.Root() {
+			return false
+		}
+		return exactWrapper(callee, what, direct, 1)
 	}
 }
 
-// fieldCallIn: call of method on struct field "Type.field".
-func fieldCallIn(f *core.FuncInfo, field, method string) func(*ast.CallExpr) bool {
-	info := f.Info()
-	return func(c *ast.CallExpr) bool {
-		se, ok := c.Fun.(*ast.SelectorExpr)
-		if !ok || se.Sel.Name != method {
-			return false
-		}
-		return core.FieldPathOf(info, se.X) == field
+func exactWrapper(fi *core.FuncInfo, what string, direct func(fi *core.FuncInfo) func(*ast.CallExpr) bool, depth int) bool {
+	if fi.Body == nil || fi.Decl == nil || depth > 2 {
+		return false
 	}
+	key := fi.Name + "|" + what
+	if v, ok := wrapperCache[key]; ok {
+		return v
+	}
+	wrapperCache[key] = false // recursion guard
+	pred := direct(fi)
+	g := fi.Graph()
+	n := 0
+	var the *core.Event
+	for _, e := range g.Events {
+		switch e.Kind {
+		case core.EvDefer, core.EvGo:
+			return false
+		case core.EvCall:
+			if pred(e.Call) {
+				n++
+				the = e
+			}
+		}
+	}
+	if n == 0 {
+		return false
+	}
+	m := func(e *core.Event) bool { return e.Kind == core.EvCall && pred(e.Call) }
+	// on every path to a return at least one, and never two
+	if p := fi.Flow().PathAvoiding(g.Entry, core.IsNormalReturn, m); p != nil {
+		return false
+	}
+	if len(fi.NoPath(m, m)) > 0 {
+		return false
+	}
+	// the error handed back is the wrapped call's error
+	if fi.ErrResultIndex() >= 0 {
+		for _, e := range g.Events {
+			if e.Kind != core.EvReturn || !fi.Flow().Reachable(e) {
+				continue
+			}
+			fact, x := fi.ReturnErrFact(e)
+			ok := false
+			if ce, isCall := fact.Def.(*ast.CallExpr); isCall && pred(ce) {
+				ok = true
+			}
+			if x != nil {
+				if ce, isCall := ast.Unparen(x).(*ast.CallExpr); isCall && pred(ce) {
+					ok = true
+				}
+			}
+			if !ok {
+				return false
+			}
+		}
+	} else if n != 1 || the == nil {
+		return false
+	}
+	wrapperCache[key] = true
+	return true
 }
 
 func evCall(pred func(*ast.CallExpr) bool) core.Match {
@@ -390,6 +490,15 @@ func siteTable(c *core.Ctx, rule string, sites []site, rows []siteRow, floor int
 		good := ok && count[k] <= r.N
 		detail := r.Why
 		if !ok {
+			// a helper extracted from a confirmed function: accepted when it is unexported and every chain of
+			// callers ends (within three steps) in functions that have a row for this callee
+			if via, okVia := viaConfirmedCallers(c.P, s.Fn.Root(), func(name string) bool { _, has := allowed[key{name, s.Callee}]; return has }); okVia {
+				c.Check(rule, fmt.Sprintf("%s/%s#%d", k.fn, short(s.Callee), count[k]), c.P.Pos(s.Ev.Pos()), true,
+					"helper called only from confirmed site functions: "+strings.Join(via, ", "))
+				continue
+			}
+		}
+		if !ok {
 			detail = fmt.Sprintf("call of %s in %s is not in the confirmed table of sites; triage it and add a row with a reason", s.Callee, k.fn)
 		} else if !good {
 			detail = fmt.Sprintf("%s has more calls of %s (%d) than the %d confirmed by reading (%s)", k.fn, s.Callee, count[k], r.N, r.Why)
@@ -398,4 +507,105 @@ func siteTable(c *core.Ctx, rule string, sites []site, rows []siteRow, floor int
 	}
 	c.Counts["call_sites"] += len(sites)
 	c.Floor(rule+" sites", len(sites), floor)
+}
+
+// eofEstablished reads the recorded branch outcomes of a path: 1 = some comparison established `x == io.EOF`,
+// 2 = established `x != io.EOF`, 0 = neither (independent of how the test is written: ==, != or inside &&/||).
+func eofEstablished(st core.State) int {
+	res := 0
+	for k, fct := range st {
+		if k.Root != nil || !strings.HasPrefix(k.Path, "cond:") || fct.Def == nil || fct.Bool == 0 {
+			continue
+		}
+		var atoms []atomB
+		decompose(fct.Def, fct.Bool == 1, &atoms)
+		for _, a := range atoms {
+			be, ok := ast.Unparen(a.x).(*ast.BinaryExpr)
+			if !ok || !strings.HasSuffix(core.ExprStr(be.Y), "io.EOF") && !strings.HasSuffix(core.ExprStr(be.X), "io.EOF") {
+				continue
+			}
+			switch {
+			case be.Op.String() == "==" && a.val, be.Op.String() == "!=" && !a.val:
+				res = 1
+			case be.Op.String() == "==" && !a.val, be.Op.String() == "!=" && a.val:
+				if res == 0 {
+					res = 2
+				}
+			}
+		}
+	}
+	return res
+}
+
+// withLocalHelpers returns f followed by the unexported declared functions of f's package that f calls directly:
+// the places a piece of f may have been extracted to.
+func withLocalHelpers(p *core.Prog, f *core.FuncInfo) []*core.FuncInfo {
+	out := []*core.FuncInfo{f}
+	seen := map[*core.FuncInfo]bool{f: true}
+	for _, g := range p.Callees(f) {
+		if g.Decl == nil || g.Decl.Name.IsExported() || g.Pkg != f.Pkg || seen[g] || g.Body == nil {
+			continue
+		}
+		seen[g] = true
+		out = append(out, g)
+	}
+	return out
+}
+
+// reverse call index (static callees + CHA), built once per program
+var callersIndex = map[*core.Prog]map[*core.FuncInfo][]*core.FuncInfo{}
+
+func callersOf(p *core.Prog, f *core.FuncInfo) []*core.FuncInfo {
+	idx, ok := callersIndex[p]
+	if !ok {
+		idx = map[*core.FuncInfo][]*core.FuncInfo{}
+		for _, g := range p.AllFuncs() {
+			if g.Body == nil {
+				continue
+			}
+			for _, callee := range p.Callees(g) {
+				idx[callee.Root()] = append(idx[callee.Root()], g.Root())
+			}
+		}
+		callersIndex[p] = idx
+	}
+	return idx[f]
+}
+
+// viaConfirmedCallers: f is an unexported declared function and every chain of callers reaches, within three
+// steps, a function accepted by confirmed; returns the confirmed functions found.
+func viaConfirmedCallers(p *core.Prog, f *core.FuncInfo, confirmed func(name string) bool) ([]string, bool) {
+	if f.Decl == nil || f.Decl.Name.IsExported() {
+		return nil, false
+	}
+	found := map[string]bool{}
+	var walk func(g *core.FuncInfo, depth int) bool
+	walk = func(g *core.FuncInfo, depth int) bool {
+		cs := callersOf(p, g)
+		if len(cs) == 0 || depth > 3 {
+			return false
+		}
+		for _, c := range cs {
+			if c == g {
+				continue
+			}
+			if confirmed(c.Name) {
+				found[c.Name] = true
+				continue
+			}
+			if c.Decl == nil || c.Decl.Name.IsExported() || !walk(c, depth+1) {
+				return false
+			}
+		}
+		return true
+	}
+	if !walk(f, 1) || len(found) == 0 {
+		return nil, false
+	}
+	var out []string
+	for n := range found {
+		out = append(out, n)
+	}
+	sort.Strings(out)
+	return out, true
 }
